@@ -20,7 +20,7 @@ if (cd $W/$PKG && go test -vet=off -count=1 -run 'SeedDemo' . >/tmp/confirm_demo
 cd /verif
 git -C /repo apply "$SD/patch.diff" || exit 2
 for p in "$@"; do
-  out=$(/verif/bin/check $p --tier quick 2>&1); rc=$?
+  out=$(GOVC_NO_EVIDENCE=1 /verif/bin/check $p --tier quick 2>&1); rc=$?
   echo "CHECK $p exit=$rc: $(echo "$out" | grep -c '^VIOLATION') violations"; echo "$out" | grep -A1 "^VIOLATION" | grep -v "^--" | head -6
 done
 git -C /repo apply -R "$SD/patch.diff"
